@@ -175,6 +175,14 @@ def check(run):
     X.report_failures(run, 'C19', failing, oracle=c19_oracle)
     for fi in cold_failing:
         run.failing_inputs.append(fi)
+    # one evaluation context re-used across the EDITS of a DOM history (shared dom campaign)
+    try:
+        from . import domlib as D
+        for g in D.query_findings(run, ('query-shared-context',)):
+            run.failing_inputs.append({'property': 'C19', 'class': 'context-reused-across-edits', 'what': g['what'], 'docs': g['docs'], 'ops': g['ops'], 'view': g['view'], 'clause': g['clause']})
+    except Exception as ex:
+        run.notes.append('edited-document stream not run: %r' % (ex,))
+
     run.extra['wall_generate_evaluate_s'] = round(time.time() - t0, 1)
     return run.finish(level='proof',
         rule='cases = queries evaluated in a shared-context sequence; non-trivial = distinct sequences mixing failing and succeeding queries',
